@@ -4,7 +4,8 @@ sys.path.insert(0, "/verif")
 from sa.__main__ import analyse, rules_module, _run_variant
 
 prop, subs = sys.argv[1], sys.argv[2:]
-root = "/repo"
+import os
+root = os.environ.get("VERIF_ROOT", "/repo")
 base = {f.key for f in analyse(prop, root).findings}
 for v in getattr(rules_module(prop), "VARIANTS", []):
     if any(s in v.name for s in subs):
